@@ -138,7 +138,8 @@ def tlc_simulate(module, cfg, tmp, num, depth, workers=8, timeout=900, seed_=1):
 
 def _segments(lines):
     """Split concatenated executions at Reset lines -> list of (start, end) line index ranges."""
-    starts = [i for i, ln in enumerate(lines) if ln.startswith('{"e":"Reset"')]
+    starts = [i for i, ln in enumerate(lines) if ln.startswith('{"e":"Reset"') or ln.startswith('{"e":"KReset"')
+              or ln.startswith('{"e":"SReset"')]
     if not starts or starts[0] != 0:
         starts = [0] + starts
     return [(s, (starts[k + 1] if k + 1 < len(starts) else len(lines))) for k, s in enumerate(starts)]
